@@ -1048,6 +1048,7 @@ func runC15(ctx *core.Ctx) {
 		}
 		execC15(ctx, c)
 	})
+	c15PauseStream(ctx)
 }
 
 func execC15(ctx *core.Ctx, c *c15Case) {
